@@ -36,9 +36,9 @@ func init() {
 
 func c04SingleStepper(c *Ctx, r *R) {
 	allowedPkgs := map[string]bool{
-		eng.Module + "/pkg/gitinterface":        true,
-		eng.Module + "/internal/gitstoretest":   true,
-		eng.Module + "/internal/dev":            false,
+		eng.Module + "/pkg/gitinterface":      true,
+		eng.Module + "/internal/gitstoretest": true,
+		eng.Module + "/internal/dev":          false,
 	}
 	n := 0
 	c.ModuleFuncs(func(fn *ssa.Function) {
@@ -165,7 +165,9 @@ func c04StepperChecks(c *Ctx, r *R) {
 	}
 	r.Site(1)
 	errPropagates(c, r, "parent-parsed", getEntry)
-	parent := eng.PCall("pkg/rsl.GetEntry", 0, nil, func(v ssa.Value) bool { return eng.SomeRoot(func(x ssa.Value) bool { return true })(v) && sameArg(v, getEntry.Arg(1)) })
+	parent := eng.PCall("pkg/rsl.GetEntry", 0, nil, func(v ssa.Value) bool {
+		return eng.SomeRoot(func(x ssa.Value) bool { return true })(v) && sameArg(v, getEntry.Arg(1))
+	})
 	entry := eng.PParam("entry")
 	pNum := eng.PMethod("GetNumber", parent)
 	eNum := eng.PMethod("GetNumber", entry)
